@@ -102,6 +102,7 @@ func describeColl(w b6.World, id b6.FeatureID, probes []interface{}) string {
 }
 
 func runYAML(data json.RawMessage) vh.Verdict {
+	obs.SetFrame("")
 	var c yamlCase
 	if err := json.Unmarshal(data, &c); err != nil {
 		return vh.Fail("harness-json", "bad case: %v", err)
